@@ -156,6 +156,30 @@ theorem stable_deps_not_spurious (g : Graph V) (s : SNode V) (ds : List Nat)
     (hr : s.remembered = some (ds.map (ver g))) (hf : s.flag = false) : outdatedEnum g s ds = false := by
   simp [outdatedEnum, hr, hf, mismatch_map_ver]
 
+/-- (partial: one node over parameter dependencies — the combinatorial core of DESIGN's
+    `permuted_deps_still_fresh`) even the pre-2752e26 code was never stale at such a node: if the
+    versions remembered at the last execution (enumeration `ds`, state `g0`) are matched by a later
+    `Outdated()` call that enumerates ANY permutation `ds'` in a later state `g` (versions only grow),
+    then no dependency version changed in between — a permuted vector equal to the remembered one
+    has the same sum -/
+theorem permuted_deps_still_fresh_partial (g0 g : Graph V) (s : SNode V) (ds ds' : List Nat)
+    (hperm : ds'.Perm ds) (hrem : s.remembered = some (ds.map (ver g0)))
+    (hmono : ∀ d ∈ ds, ver g0 d ≤ ver g d) (hno : outdatedEnum g s ds' = false) :
+    ∀ d ∈ ds, ver g d = ver g0 d := by
+  simp only [outdatedEnum, hrem, Bool.or_eq_false_iff] at hno
+  have hlen : ds'.length = (ds.map (ver g0)).length := by simp [hperm.length_eq]
+  have h1 := mismatch_false_map g _ ds' _ hno.2 hlen
+  have h2 : (ds'.map (ver g)).sum = (ds.map (ver g)).sum := (hperm.map (ver g)).sum_nat
+  rw [h1] at h2
+  intro d hd
+  exact (sum_eq_pointwise ds (ver g0) (ver g) hmono h2 d hd).symm
+
+/-- the hypotheses are satisfiable with a genuinely permuted enumeration (equal versions) -/
+example : outdatedEnum (fun _ => (.param 0 3 : Node Nat))
+    { fn := fun _ _ _ => 0, scalars := [some 0, some 1], arrays := [], cache := 0, version := 1,
+      remembered := some ([0, 1].map (ver (fun _ => (.param 0 3 : Node Nat)))), flag := false } [1, 0] = false := by
+  decide
+
 /-! ### non-vacuity: a diamond over two parameters with a shared node and an array port -/
 
 def sum3 : List (Option Nat) → List (List Nat) → List Nat → Nat := fun _ _ vs => vs.foldl (· + ·) 1
